@@ -55,14 +55,14 @@ META = {
 
 FUEL = 200000
 
-VALUES = ['alpha', 'beta gamma', 'one two three four', 'a:b', 'x/y z', '', ' ', 'sec 1.2',
+VALUES = ['alpha', 'beta gamma', 'one two three four', 'a:b', 'x/y z', '', ' ', 'sec 1.2', 'nl\nsep two', ' lead', 'trail ', '12', 'v1.2-notes',
           'Ünï cödé', 'dup', 'dup', 'a  b', 'tab\tsep', 'Intro', 'Intro',
           'The quick brown fox', '??', ':::', 'index', 'sect1', 'q.html', 'a b', 'a-b']
 VARS = ['id', 'title', 'name', 'ref']
-LITS = ['sect', 'file-', '_', 'index', 'toc', 'n', 'a.b', 'x', '-', 'p_', 'v.', '.h']
+LITS = ['sect', 'file-', '_', 'index', 'toc', 'n', 'a.b', 'x', '-', 'p_', 'v.', '.h', 'dir/', 'd.x/', 'images/img-']
 BADS = [None, [': #$%^&*!~`"\'=?/{}[]()|<>;\\,.', '-'], [' :/', '_'], [':/', '-'], ['', '-'],
         [' ', ''], ['\t :', '-'], [': #$%^&*!~`"\'=?/{}[]()|<>;\\,.', '_']]
-EXTS = ['.html', '.html', '.html', '', '.xml']
+EXTS = ['.html', '.html', '.html', '', '.xml', 'html']
 
 
 # --------------------------------------------------------------------------
@@ -161,7 +161,8 @@ def generate(seed, tier):
     for k in range(rr.choice([0, 0, 1, 2, 4])):
         reserved.append(rr.choice(['index.html', 'sect1.html', 'sect0001.html', 'alpha.html', 'dup.html',
                                    'sect001', 'sect1', 'toc.html', 'Intro.html', '1.html', 'n1.html',
-                                   'index', 'sect2.html', 'file-1.html', 'x1.html', '001.html', '0001.html']))
+                                   'index', 'sect2.html', 'file-1.html', 'x1.html', '001.html', '0001.html', 'INDEX.html', 'Sect1.html',
+                                   'sect1.htm', 'index.xml']))
     swarm = {
         'static': static, 'wildcard': wildcard, 'charsub': r.choice(BADS), 'initial': initial,
         'extension': r.choice(EXTS), 'reserved': reserved,
@@ -357,10 +358,22 @@ def execute(record):
     for v in VARIANTS:
         states[v] = model.initial_state()
     viol = None
+    if not sw['reserved']:
+        # two generators in one interpreter must not share their set of issued names (a mutable default argument
+        # would): a throw-away generator with the same template issues a few names first
+        try:
+            pre = Filenames(spec, charsub=list(sw['charsub']) if sw['charsub'] else None, variables=dict(sw['initial']),
+                            extension=sw['extension'])
+            for op in record['ops'][:3]:
+                for k, v in op.get('bind', {}).items():
+                    pre.variables[k] = v
+                _call_with_fuel(pre)
+        except (Exception, FuelExhausted):
+            pass
     try:
         gen = Filenames(spec, charsub=list(sw['charsub']) if sw['charsub'] else None,
                         variables=dict(sw['initial']), extension=sw['extension'],
-                        invalid=dict((n, None) for n in sw['reserved']))
+                        invalid=(dict((n, None) for n in sw['reserved']) if sw['reserved'] else None))
     except Exception as e:
         res['violations'].append({'sig': 'C15|raise|new|%s' % type(e).__name__,
                                   'detail': {'spec': spec, 'exception': repr(e)}})
